@@ -76,13 +76,17 @@ const TOPICS: &[&str] = &["a/b", "a/c", "a/b/c", "d", "x/y/z", "$SYS/x", "\u{e9}
 const FILTERS: &[&str] = &["a/b", "a/+", "a/#", "#", "+/b", "d", "+/+/+", "x/#", "\u{e9}t\u{e9}/+", "a/b/c"];
 
 impl RunCfg {
-    pub fn draw(prop: P, ch: &mut Choices) -> RunCfg {
+    pub fn draw(prop: P, tier: Tier, ch: &mut Choices) -> RunCfg {
         let n_clients = match prop {
             P::C09 => ch.range(2, 4),
             P::C17 => ch.range(3, 6),
             _ => ch.range(1, 5),
         } as usize;
-        let max_steps = *ch.choose(&[30u32, 80, 150, 250, 400]);
+        // the thorough tier also draws longer histories
+        let max_steps = match tier {
+            Tier::Quick => *ch.choose(&[30u32, 80, 150, 250, 400]),
+            Tier::Thorough => *ch.choose(&[30u32, 80, 150, 250, 400, 700, 1200]),
+        };
         let small_retention = ch.coin(1, 5);
         let seg_size = if small_retention { 1024 } else { 64 * 1024 * 1024 };
         let seg_count = if small_retention { ch.range(1, 3) as usize } else { 10 };
@@ -3322,7 +3326,7 @@ fn run_c08(tier: Tier, ch: &mut Choices, rep: &mut RunReport) -> Outcome {
     base.log.clear();
     let n = {
         let mut scratch = base.clone();
-        RunCfg::draw(P::C08, &mut scratch).max_steps
+        RunCfg::draw(P::C08, tier, &mut scratch).max_steps
     };
     let mut any_nontrivial = false;
     let mut first = true;
@@ -3374,12 +3378,12 @@ fn run_c08(tier: Tier, ch: &mut Choices, rep: &mut RunReport) -> Outcome {
 
 fn run_single(
     prop: P,
-    _tier: Tier,
+    tier: Tier,
     ch: &mut Choices,
     rep: &mut RunReport,
     kill: Option<(u32, u8)>,
 ) -> Outcome {
-    let cfg = RunCfg::draw(prop, ch);
+    let cfg = RunCfg::draw(prop, tier, ch);
     let config = RouterConfig {
         max_connections: cfg.max_connections,
         max_outgoing_packet_count: cfg.max_outgoing,
